@@ -2,21 +2,22 @@
    Only statements, closed by `exact`, with Print Assumptions beneath each.
    The model follows /repo after the repairs 005ce23 / 79f3366 / 3d2189e (see notes/C17.md). *)
 From Coq Require Import NArith List Bool Arith.
-From SV.Stream Require Import Skip SkipProofs Json1 Dec Spec Enc Witness DecProofs1 DecProofs2 DecProofs EncProofs.
+From SV.Stream Require Import Skip SkipProofs Json1 SkipValid Dec Spec Enc Witness DecProofs1 DecProofs2 DecProofs EncProofs.
 Import ListNotations.
 Open Scope N_scope.
 
 (* ---- chunk independence, under the exact guard `good_values` - a computable check of the byte stream and the reader's
    final condition alone (DecProofs.gv_step): each top-level value is a number whose run of number bytes is delimited
-   (or ends a stream that ends with io.EOF), or an object / array / string / literal that the fast skipper frames
-   where the reference scanner ends it; the stream ends in white space, in a byte that cannot start a value, in a
-   framed value the decoder rejects, or in a truncated object / array / string / literal.
+   (or ends a stream that ends with io.EOF), or an object / array / string / literal that is VALID for the reference
+   scanner - nothing about the fast skipper or the inner decoder has to be checked for those, see
+   C17_fast_skip_on_valid / C17_inner_on_valid below; the stream ends in white space, in a byte that cannot start a
+   value, in a framed value the decoder rejects, or in a truncated object / array / string / literal.
    For EVERY reader oracle delivering these bytes (cuts anywhere, empty reads, final condition with or after the last
    data, any buffer size >= 1) the model yields the values and the terminal condition of the value-by-value
    specification: io.EOF / the reader's own error unchanged after the values / an error for malformed or truncated
    trailing data.
-   Missing for full strength: values that the native skipper frames differently from the reference scanner, malformed
-   numbers, and the case refuted below. *)
+   Missing for full strength: malformed values inside a stream that continues, malformed numbers, and the case
+   refuted below. *)
 Theorem C17_stream_chunk_independent_partial : forall avx2 pc r vs t,
   (1 <= pc)%nat -> wf_reader r = true ->
   good_values avx2 (rfin r) (S (length (rd_bytes r))) (rd_bytes r) = Some (vs, t) ->
@@ -51,6 +52,22 @@ Theorem C17_selfdelim_framing_stable : forall avx2 r n c rest,
   r = c :: rest -> selfdelim c = true -> skip_one_fast avx2 r = SkOk 0 n -> framed_at (skip_one_fast avx2) r n.
 Proof. exact selfdelim_framed. Qed.
 Print Assumptions C17_selfdelim_framing_stable.
+
+(* on every VALID object / array / string / literal (reference scanner, strict or lenient), followed by anything, the
+   fast skipper frames exactly the value; its last byte is not white space *)
+Theorem C17_fast_skip_on_valid : forall avx2 strict c rest n,
+  selfdelim c = true -> scan_value strict (c :: rest) = Complete n ->
+  skip_one_fast avx2 (c :: rest) = SkOk 0 n /\ (1 <= n <= length (c :: rest))%nat /\
+  is_space (nth (n - 1) (c :: rest) 0) = false.
+Proof. exact skip_on_valid. Qed.
+Print Assumptions C17_fast_skip_on_valid.
+
+(* ... and the inner decoder, given the framed copy of a valid value, returns exactly its text *)
+Theorem C17_inner_on_valid : forall c rest n,
+  is_space c = false -> scan_value true (c :: rest) = Complete n ->
+  inner_decode (firstn n (c :: rest)) = Some (firstn n (c :: rest)).
+Proof. exact inner_on_valid. Qed.
+Print Assumptions C17_inner_on_valid.
 
 (* ... and for numbers: whatever the cuts, the loop of decodeNumber stops exactly after the run of number bytes
    (generic over the framing routine; R = c :: rest is everything from the first byte of the number on) *)
